@@ -10,8 +10,10 @@ Three lemmas (DESIGN.md section 5, C18):
     meta functions) to the size and alignment of the stack slot the same compiler allocates for `x : T`, which
     equal the documented primitive rule.
 L1 and L2 and L3 together: reflected size/align/stride of every primitive is what generated code uses.
-Compound types (the tables emitted by compile_meta_builtins), `any`, and type-value equality over compound types are
-outside this check.
+ L4 (Engine B, closed terms): for 28 compound types (depth <= 2), size/stride/align read by the compiled core.meta from
+    the tables the compiler emits (object-file data with relocations) = the stack slot allocated for `x : T` = the element
+    step of generated indexing code = the documented rule; pairwise type-value equality. Two declaration orders.
+`any` and the get_type_info decoders are outside this check.
 """
 import re
 import z3
@@ -166,6 +168,118 @@ def l2_l3(chk):
     chk.cov['closed_terms'] = closed
 
 
+def compound_types():
+    """named declarations + the list of compound types (depth <= 2) whose reflection is compared with the generated code"""
+    from lib import capyty as T
+    S = T.S
+    cell = T.Struct('Cell', [('tag', S('u8')), ('inner', T.Opt(S('u16')))])
+    pair = T.Struct('Pair', [('a', S('u8')), ('b', S('u64'))])
+    t3 = T.Struct('T3', [('a', S('u16')), ('b', S('u8'))])
+    nest = T.Struct('Nest', [('c', cell), ('d', S('u8')), ('e', T.Array(2, t3))])
+    en = T.Enum('En', [('A', None, None), ('B', S('u64'), None), ('C', T.Array(3, S('u8')), None)])
+    en2 = T.Enum('En2', [('X', S('u16'), None), ('Y', t3, None)])
+    dist = T.Distinct('Dist', t3)
+    dopt = T.Distinct('DOpt', T.Opt(S('u32')))
+    decls = [cell, pair, t3, nest, en, en2, dist, dopt]
+    tys = [cell, pair, t3, nest, en, en2, dist, dopt,
+           T.Opt(S('u8')), T.Opt(S('u16')), T.Opt(S('u64')), T.Opt(cell), T.Opt(T.Opt(S('u8'))), T.Opt(T.Array(2, T.Opt(S('u16')))), T.Opt(T.Ptr(S('u8'))),
+           T.Opt(t3), T.Opt(en), T.Opt(dopt),
+           T.Err(pair, S('u64')), T.Err(t3, S('u16')), T.Err(en, cell),
+           T.Array(3, t3), T.Array(2, T.Opt(S('u32'))), T.Array(2, T.Array(3, S('u16'))), T.Array(2, cell), T.Array(3, T.Opt(cell)),
+           T.Ptr(t3), T.Ptr(T.Opt(S('u16')), True)]
+    return decls, tys
+
+
+def l4(chk, order):
+    """L4 (Engine B, closed terms): for compound types, the size / stride / alignment that the compiled core.meta reads
+    from the tables emitted by compile_meta_builtins equal (a) the stack slot the compiler allocates for `x : T`,
+    (b) the element step of `^p[1]` on a `^[2]T` in generated code and (c) the documented layout rule; and two type
+    values are equal exactly when they are the same type. `order` permutes the functions, because type ids are given
+    out in the order types are first met."""
+    import os
+    from lib import elfdata
+    decls, tys = compound_types()
+    idx = list(range(len(tys)))
+    if order == 'reversed':
+        idx.reverse()
+    lines = [TEMPLATE] + [d.decl() for d in decls]
+    names = []
+    for k in idx:
+        t = tys[k].src()
+        lines.append('cid_%d :: () -> usize { meta.size_of(%s) * 4294967296 + meta.stride_of(%s) * 65536 + meta.align_of(%s) }' % (k, t, t, t))
+        lines.append('cslot_%d :: (p: ^%s) { x : %s = p^; }' % (k, t, t))
+        lines.append('cstep_%d :: (p: ^[2]%s) -> ^%s { ^p[1] }' % (k, t, t))
+        names += ['cid_%d' % k, 'cslot_%d' % k, 'cstep_%d' % k]
+    eqn = min(len(tys), 14)
+    for i in range(eqn):
+        for j in range(eqn):
+            lines.append('teq_%d_%d :: () -> bool { %s == %s }' % (i, j, tys[i].src(), tys[j].src()))
+            names.append('teq_%d_%d' % (i, j))
+    refs = 'refs :: () {\n' + '\n'.join('    r%d := %s;' % (i, n) for i, n in enumerate(names)) + '\n}\n'
+    src = '\n'.join(lines) + '\n' + refs + 'main :: () { refs(); }\n'
+    mod, out = clifcheck.compile_module('C18', 'compound_' + order, src)
+    if mod is None:
+        raise Inconclusive('the C18 compound template was rejected by the compiler:\n' + out[-1500:])
+    obj = os.path.join(common.workdir('C18'), 'out', 'compound_%s.o' % order)
+    data = elfdata.data_objects(obj); relocs = elfdata.data_relocations(obj)
+
+    def const_of(fn, args=()):
+        eng = ClifEngine(mod, max_visits=40, data=data)
+        eng.data_relocs = relocs
+        try:
+            paths = eng.run(mod.by_pretty(fn), list(args), ClifState())
+        except Unsupported as e:
+            raise Inconclusive('%s: %s' % (fn, e))
+        chk.funcs_encoded.update(eng.funcs_run)
+        chk.cov['ir_instructions_executed'] = chk.cov.get('ir_instructions_executed', 0) + eng.steps_total
+        if len(paths) != 1 or paths[0].status != 'ret':
+            return None, paths
+        return z3.simplify(paths[0].ret[0]), paths
+    closed = []
+    for k in idx:
+        ty = tys[k]
+        v, paths = const_of('cid_%d' % k)
+        if v is None or not z3.is_bv_value(v):
+            key = {'kind': 'reflect-compound', 'type_kind': ty.kind, 'symptom': 'reflection does not return'}
+            what = 'type %s (%s order): core.meta size_of/stride_of/align_of does not return a value (%s)' % (ty.src(), order, [p.status for p in paths][:3])
+            chk.report(key, what, replaylib.make_compile_replay('C18', 'compound_%s_%d' % (order, k), src, '', what, key)); continue
+        v = v.as_long()
+        rsize, rstride, ralign = v >> 32, (v >> 16) & 0xffff, v & 0xffff
+        f = mod.funcs[mod.by_pretty('cslot_%d' % k)]
+        slots = list(f.slots.values())
+        slot = slots[0] if len(slots) == 1 else None
+        p = z3.BitVec('p', 64)
+        sv, _ = const_of('cstep_%d' % k, [p])
+        step = None
+        if sv is not None:
+            d = z3.simplify(sv - p)
+            step = d.as_long() if z3.is_bv_value(d) else None
+        doc = (ty.size(), ty.stride(), ty.align())
+        closed.append({'type': ty.src(), 'order': order, 'reflected': [rsize, rstride, ralign], 'slot': list(slot) if slot else None, 'element_step': step, 'documented': list(doc)})
+        bad = []
+        if (rsize, rstride, ralign) != doc:
+            bad.append('documented rule gives size %d stride %d align %d' % doc)
+        if slot is not None and ty.size() > 0 and (slot[0], slot[1]) != (rsize, ralign):
+            bad.append('the compiler allocates a slot of size %d align %d' % (slot[0], slot[1]))
+        if step is not None and step != rstride:
+            bad.append('generated code steps %d bytes between array elements' % step)
+        if bad:
+            key = {'kind': 'reflect-compound', 'type_kind': ty.kind, 'symptom': 'size/stride/align'}
+            what = 'type %s (%s order): core.meta reports size %d stride %d align %d but %s' % (ty.src(), order, rsize, rstride, ralign, '; '.join(bad))
+            chk.report(key, what, replaylib.make_compile_replay('C18', 'compound_%s_%d' % (order, k), src, '', what, key))
+    for i in range(eqn):
+        for j in range(eqn):
+            v, paths = const_of('teq_%d_%d' % (i, j))
+            got = v.as_long() if (v is not None and z3.is_bv_value(v)) else None
+            if got != (1 if i == j else 0):
+                key = {'kind': 'type-equality', 'same': i == j}
+                what = '`%s == %s` (%s order) evaluates to %s' % (tys[i].src(), tys[j].src(), order, got)
+                chk.report(key, what, replaylib.make_compile_replay('C18', 'teq_%s_%d_%d' % (order, i, j), src, '', what, key))
+    chk.cov['closed_terms'] = chk.cov.get('closed_terms', []) + closed
+    chk.cov['type_equalities_checked'] = chk.cov.get('type_equalities_checked', 0) + eqn * eqn
+    chk.cov['programs'] = chk.cov.get('programs', 0) + 1
+
+
 def run(chk, tier, seed):
     import random
     rnd = random.Random(seed)
@@ -175,11 +289,13 @@ def run(chk, tier, seed):
     llcheck.selftest(chk, mod, so, '@harness_simple_id', lambda c: (State(), list(c)), lambda c: [('int', v, 'c_uint32') for v in c], cases, ret='c_uint32', ret_bits=32)
     l1(chk, mod, so)
     l2_l3(chk)
+    for order in ('listed', 'reversed'):
+        l4(chk, order)
     chk.cov['exhaustive'] = True
     chk.cov['explanation'] = 'L1: paths of the real simple_id functions over all field values; L2: paths of the compiled core.meta decoders over all simple ids; L3: closed terms per primitive (recorded as closed_terms, not as solver verdicts)'
     chk.bounds.update({'L1': 'disc < 63, size < 31, align < 15 (the asserted domain), bit widths {0,8,16,32,64,128}', 'L2': 'all 2^30 type ids whose discriminant is < 16',
-                       'L3': [p[0] for p in PRIMS], 'outside_claim': ['compound types (array/struct/enum/... tables emitted by compile_meta_builtins)', '`any`', 'type-value equality over compound types',
-                                                                     'get_type_info decoders']})
+                       'L3': [p[0] for p in PRIMS], 'L4': '28 compound types of depth <= 2 (structs, enums, distincts, optionals incl. nested, error unions, arrays, pointers) in two declaration orders; 14 x 14 type equalities',
+                       'outside_claim': ['`any`', 'get_type_info decoders (field names / member offsets / variants through reflection)', 'compound types deeper than 2']})
     chk.assumptions.extend(['hook codegen::verif_hooks::convert (add-only)', 'the meta_type_to_u32 builtin is executed from its printed CLIF',
                             'rustc 1.88 LLVM IR at opt-level 1 (L1); Cranelift opcode semantics as documented (L2, L3)'])
 
